@@ -10,6 +10,7 @@ import IsoVerif.Model.Util
 import IsoVerif.Model.Core.OpsC09
 import IsoVerif.Model.Core.Refetch
 import IsoVerif.Model.Core.OpsC10
+import IsoVerif.Model.Core.OpsTie
 
 open IsoVerif IsoVerif.Util IsoVerif.Core IsoVerif.Ops IsoVerif.GqlValid
 
@@ -36,14 +37,16 @@ def parsePointers (field : String) : List (Str × Str × Str) :=
 
 def step (st : St) (fs : List String) : St × String :=
   let (req, impl) := splitArrow fs
+  -- `case` / `casegraph` lines carry inputs of the case (schema, artifact graph): echoed, not modelled
+  let echo := " ".intercalate impl
   match req with
   | "case" :: _ =>
     match impl with
     | ["ok", sdlH, ptrs] =>
       match (hexStr sdlH).bind parseSchema with
-      | some sch => ({ schema := some sch, pointers := parsePointers ptrs }, "-\tok")
-      | none => ({}, "-\tbad:machinery:schema-unparsed")
-    | _ => ({}, "-\tok")
+      | some sch => ({ schema := some sch, pointers := parsePointers ptrs }, echo ++ "\tok")
+      | none => ({}, echo ++ "\tbad:machinery:schema-unparsed")
+    | _ => ({}, echo ++ "\tok")
   | "c09" :: _ => (st, c09Line st.schema impl)
   | "casegraph" :: _ =>
     match impl with
@@ -52,13 +55,19 @@ def step (st : St) (fs : List String) : St × String :=
         -- a module that is not JavaScript is C09's finding (F13); anything else is reported
         let msg := ((hexStr (w.drop 2).toString).map stringOfStr).getD ""
         ({ st with graph := none },
-          if msg.startsWith "syntax-error" then "-\tok" else "-\tbad:artifacts-do-not-evaluate")
+          if msg.startsWith "syntax-error" then echo ++ "\tok" else echo ++ "\tbad:artifacts-do-not-evaluate")
       else match parseGraph w with
-        | some g => ({ st with graph := some g }, "-\tok")
-        | none => ({ st with graph := none }, "-\tbad:machinery:graph-unparsed")
-    | _ => ({ st with graph := none }, "-\tbad:machinery:graph-fields")
+        | some g => ({ st with graph := some g }, echo ++ "\tok")
+        | none => ({ st with graph := none }, echo ++ "\tbad:machinery:graph-unparsed")
+    | _ => ({ st with graph := none }, echo ++ "\tbad:machinery:graph-fields")
   | ["c25", _, entry] => (st, c25Line st.graph entry)
   | ["c25dbg", _, entry] => (st, c25Debug st.graph entry)
+  | ["c10dbg", _, entry] =>
+    (st, match st.graph.bind (fun g => (g.entry? (strOfString entry)).bind fun e => (g.reader? e.reader).map fun r => (g, e, r)) with
+      | some (g, e, r) =>
+        " | ".intercalate (coverTrace g 400 (if e.atRoot then e.op.norm else lastLevel (unwrapLevels 8 e.op.norm)) r.ast none []) ++ "\tok"
+      | none => "noentry\tok")
+  | "c10m" :: _ => (st, IsoVerif.Ops.Tie.c10mLine st.graph req impl)
   | "c10" :: _ =>
     let possible : Str → List Str := fun t =>
       match st.schema with
